@@ -95,10 +95,9 @@ impl<D: Doc> Root<D> {
   // extract non generic implementation to reduce code size
   pub fn do_edit(&mut self, edit: Edit<D>) -> Result<(), TSParseError> {
     let source = self.doc.get_source_mut();
-    let input_edit = perform_edit(&mut self.inner, source, &edit);
-    self.inner.edit(&input_edit);
-    #[cfg(ast_grep_verif)]
-    crate::verif_hook::emit("tree_edit", "\"by\":\"do_edit\"");
+    // perform_edit has already applied the InputEdit to the old tree; applying it a second time
+    // shifts the ranges of the nodes after the edit twice and corrupts incremental parsing
+    perform_edit(&mut self.inner, source, &edit);
     self.inner = self.doc.parse(Some(&self.inner))?;
     #[cfg(ast_grep_verif)]
     crate::verif_hook::emit("reparse", "");
